@@ -25,7 +25,7 @@ REQUIRED = ['one_shot_fired', 'persistent_fired_3plus', 'interval_zero', 'equal_
             'unregister_live_timer', 'unregister_persistent_after_firing', 'idle_wait_bounded_by_timer', 'two_timers_alive', 'sleep_task_present',
             'unbounded_idle_without_timers', 'double_event_instances', 'virtual_time_calls', 'source_fire_seen',
             'datetime_deadline_in_non_utc_zone', 'handler_consumed_time', 'clock_advances_between_readings', 'reset_with_new_interval', 'reset_to_zero_interval',
-            'timer_registered_from_another_thread_while_loop_idle', 'registering_thread_preempted_inside_register']
+            'timer_object_registered_again_after_it_left', 'timer_registered_from_another_thread_while_loop_idle', 'registering_thread_preempted_inside_register']
 REQUIRED_OBLIGATIONS = ['NOT_EARLY', 'ONE_SHOT_ONCE', 'ONE_SHOT_DETACHED', 'PERSISTENT_SPACING', 'NO_FIRE_AFTER_UNREGISTER', 'RESET_RESTARTS',
                         'NO_OVERSLEEP', 'PROMPT']
 WORKER_TIMEOUT = {'quick': 300, 'thorough': 1500}
@@ -205,6 +205,19 @@ def _run_case(case, clock):
                 t['obj'].unregister()
                 t['alive'] = False
                 t['unreg_at'] = len(log)
+        elif kind == 'rejoin':
+            # a Timer object that has left the tree (a one-shot that fired, or a completed unregister()) is armed and registered again
+            t = timers.get(alias.get(a[2], a[2]))
+            if t and not t['alive'] and t['obj'].parent is t['obj'] and not isinstance(t['obj'].interval, datetime) \
+                    and not (t['persist'] and t['interval'] == 0):      # (a persistent timer of interval 0 never lets the virtual time advance)
+                marks.add('timer_object_registered_again_after_it_left')
+                t['obj'].reset()
+                t['obj'].register(app)
+                t['superseded'] = True     # (it had left the tree - checked above -; what the object does from now on belongs to the new record)
+                nid = '%s+%d' % (a[2], sum(1 for k_ in timers if str(k_).startswith('%s+' % a[2])) + 1)
+                timers[nid] = {'obj': t['obj'], 'persist': t['persist'], 'interval': t['interval'], 'expiry': now + t['interval'], 'alive': True,
+                               'unreg_at': None, 'fired': [], 'resets': [], 'created': now, 'alive_at_check': False}
+                alias[a[2]] = nid
         elif kind == 'busy':
             # a long-running handler: virtual time passes inside it, the loop reaches its timers late
             marks.add('handler_consumed_time')
@@ -304,7 +317,10 @@ def _run_case(case, clock):
                     problems.append(('PERSISTENT_SPACING', {'timer': tid, 'consecutive_firings': [a - T0, b - T0], 'interval': t['interval']}))
         else:
             counts['ONE_SHOT_ONCE'] += 1
-            should = t['unreg_at'] is None and t['created'] + t['interval'] <= end + T0 - 0.5 and not t['resets']
+            # (long-running handlers push the clock on: a timer that comes due while one of them runs may only be reached after the end
+            # of the scenario - the obligation to have fired is then not evaluated)
+            busy_total = sum(a[2] for a in case['actions'] if a[1] == 'busy')
+            should = t['unreg_at'] is None and t['created'] + t['interval'] + busy_total <= end + T0 - 0.5 and not t['resets']
             if len(fired) > 1 or (should and len(fired) != 1):
                 problems.append(('ONE_SHOT_ONCE', {'timer': tid, 'firings': [f - T0 for f in fired], 'created_at': t['created'] - T0,
                                                    'interval': t['interval'], 'scenario_end': end}))
@@ -342,6 +358,12 @@ def corpus():
                                                                       [4.5, R, 5, 0.1], [6.0, U, 2]]})
     cs.append({'name': 'unregister', 'end': 6.0, 'actions': [[0, N, 1, 1.0, False], [0.5, U, 1], [0, N, 2, 0.25, True], [1.1, U, 2], [0, N, 3, 2.5, True],
                                                              [1.0, N, 4, 0.1, False], [2.0, N, 5, 1, True], [3.0, U, 5]]})
+    # Timer objects that left the tree (a one-shot that fired; a completed unregister of a one-shot and of a persistent one) are armed and
+    # registered again: they fire again, once / periodically, and can be taken out again
+    J = 'rejoin'
+    cs.append({'name': 'rejoin', 'end': 12.0, 'actions': [[0, N, 1, 1.0, False], [2.0, J, 1], [4.0, J, 1], [0, N, 2, 0.5, True], [1.7, U, 2], [2.5, J, 2], [4.3, U, 2],
+                                                         [0, N, 3, 5.0, False], [1.0, U, 3], [2.0, J, 3], [8.0, J, 3], [9.0, R, 3], [0, N, 4, 0.25, True], [6.0, U, 4],
+                                                         [6.5, J, 4], [7.4, U, 4], [8.0, J, 4], [10.0, U, 4]]})
     cs.append({'name': 'sleepers', 'end': 5.0, 'actions': [[0, 'sleeper', 0.35], [0, N, 1, 1.0, True], [0.2, N, 2, 0.1, False], [1.5, 'sleeper', 1.2],
                                                            [1.6, 'fire'], [2.0, N, 3, 0.25, False], [3.5, U, 1]]})
     cs.append({'name': 'late-loop', 'end': 16.0, 'actions': [[0, N, 1, 1.0, True], [0, N, 2, 0.25, True], [2.5, 'busy', 1.6], [5.0, 'busy', 3.25],
@@ -384,6 +406,10 @@ def gen_case(rng):
             acts.append([at, 'unreg', tid])
         elif rng.random() < 0.35:
             acts.append([round(at + rng.uniform(0, min(end - at, 3.0)), 2), 'unreg', tid])
+        if not isinstance(interval, list) and not (persist and interval == 0) and rng.random() < 0.25:
+            # later on the same object is armed and registered again (a no-op unless it has left the tree by then)
+            for _j in range(rng.randint(1, 2)):
+                acts.append([round(rng.uniform(at, end), 2), 'rejoin', tid])
     for _ in range(rng.randint(0, 3)):
         acts.append([round(rng.uniform(0, end), 2), rng.choice(['fire', 'fire', 'sleeper'])] + ([round(rng.uniform(0.05, 1.5), 2)] if False else []))
     for _ in range(rng.randint(0, 2)):
